@@ -7,7 +7,7 @@ import BqVerif.Drivers.Util
   <label>                                          one transition; answer = canonical state or `none`
 
 Labels: `crash n t`, `recvEmp p e f | emits`, `recvUp n f | emits`, `recvClient c f | emits`,
-`flush n`, `outReset n`, `wake n c`, `wsend w msg`, `wrecv w`, `ccall c msg`, `cwake c`.
+`flush n`, `flushDrop n`, `wsend w msg`, `wrecv w`, `ccall c msg`, `cwake c`.
 Messages: S shutdown, R.m.v, E sysError, o.k other, B broken, q.k request, s.k submit (k-th task of the client),
 d disconnect, X error, r.k reply.  Emits: `u:msg`, `e<i>:msg`, `c<i>:msg`.
 Stateless: `recvall <eof> | msgs`, `predrain <eof> | msgs` (the client's receive loops). -/
@@ -59,8 +59,7 @@ def parseLabel (gs : List (List String)) : Option Label :=
   | ["recvUp", n, f] => do some (.recvUp (← n.toNat?) (← emits.mapM parseEmit) (← parseBool f))
   | ["recvClient", c, f] => do some (.recvClient (← c.toNat?) (← emits.mapM parseEmit) (← parseBool f))
   | ["flush", n] => n.toNat?.map .flush
-  | ["outReset", n] => n.toNat?.map .outReset
-  | ["wake", n, c] => do some (.wake (← n.toNat?) (← c.toNat?))
+  | ["flushDrop", n] => n.toNat?.map .flushDrop
   | ["wsend", w, m] => do some (.wsend (← w.toNat?) (← parseMsg m))
   | ["wrecv", w] => w.toNat?.map .wrecv
   | ["ccall", c, m] => do some (.ccall (← c.toNat?) (← parseMsg m))
@@ -86,7 +85,7 @@ def showCEv : CEv → String
 
 def showState (t : Topo) (nc : Nat) (s : State) : String :=
   let nodes := (List.range t.n).map (fun i =>
-    s!"{i}:a{b (s.alive i)}r{b (s.running i)}h{b (s.half i)}c{b (s.cleared i)}o{b (s.outAlive i)}" ++
+    s!"{i}:a{b (s.alive i)}r{b (s.running i)}c{b (s.cleared i)}o{b (s.outAlive i)}" ++
     s!"u{b (s.upOpen i)}d{b (s.downOpen i)}S{b (s.sentShutdown i)}y{s.syslog i}" ++
     s!"|out={showMsgs (s.outbox i)}|in={showMsgs (s.inbox i)}|q={showQ (s.outq i)}")
   let cls := (List.range nc).map (fun c =>
